@@ -3,14 +3,15 @@
 /* ---- ECDH */
 static int ecdh_hash_fail(unsigned char *o, const unsigned char *x, const unsigned char *y, void *d) { (void)o; (void)x; (void)y; (void)d; return 0; }
 static int ecdh_hash_xy(unsigned char *o, const unsigned char *x, const unsigned char *y, void *d) { (void)d; memcpy(o, x, 32); memcpy(o + 32, y, 32); return 1; }
-/* ecdh pubkey seckey mode ; mode 0: NULL (default), 1: sha256 explicit, 2: failing callback, 3: raw x||y (64 bytes) */
+/* ecdh pubkey seckey mode [data|-] ; mode 0: NULL (default), 1: sha256 explicit, 2: failing callback, 3: raw x||y (64 bytes); data: passed through as the callback's data pointer (all four ignore it) */
 static void op_ecdh(void) {
     unsigned char *pk = A_fix(0, PK, 0), *sk = A_fix(1, 32, 0); long mode = A_int(2); unsigned char *out = O_buf(mode == 3 ? 64 : 32); int r;
+    unsigned char *dat = A_isnull(3) ? NULL : A_blob(3, NULL);
     secp256k1_ecdh_hash_function fp = NULL;
     if (g_bad) return;
     if (mode == 1) fp = secp256k1_ecdh_hash_function_sha256; else if (mode == 2) fp = ecdh_hash_fail; else if (mode == 3) fp = ecdh_hash_xy;
     if (g_alias && mode != 3) out = sk;      /* in place: the shared secret overwrites the secret key buffer */
-    CALL(r = secp256k1_ecdh(ctx, out, (secp256k1_pubkey *)pk, sk, fp, NULL)); R_int(r); R_hex(out, mode == 3 ? 64 : 32);
+    CALL(r = secp256k1_ecdh(ctx, out, (secp256k1_pubkey *)pk, sk, fp, dat)); R_int(r); R_hex(out, mode == 3 ? 64 : 32);
 }
 
 /* ---- ElligatorSwift */
